@@ -21,7 +21,9 @@ Three further dimensions:
   results, all of them OK. `revocationFinalResult` fails closed on every count but the exact one: the verification
   fails with an outcome (status unknown), it never indexes the chain by result position (`revStep`; theorems
   `revocation_count_fails_closed`, `revocation_exact_count_accepts`, `rev_surplus_irrelevant_unless_checked`,
-  `rev_client_irrelevant`).
+  `rev_client_irrelevant`). `revNil`: the entries of the vector are nil pointers - fails closed in the same way, never a
+  nil dereference (`revocation_nil_entries_fail_closed`); `revNilServer`: the results hold a nil server result - does not
+  matter (`rev_nil_server_irrelevant`).
 * `keys`, `deflt`, `names` - `config.SigningKeys.Remove(names...)` on a key list: the names are looked up and
   deleted ONE AFTER THE OTHER, so a name given twice is a not-found error at its second turn unless the list holds
   it twice (`removeErr`; theorems `remove_ok_of_distinct_known`, `remove_repeated_name_not_found`,
@@ -138,6 +140,9 @@ structure Input where
                           -- statement skips revocation, nothing is asked)
   revSurplus : Int := 0   -- ... with (length of the certificate chain + revSurplus) results, each of them OK
   revClient : Bool := false -- ... through the deprecated `RevocationClient` instead of `RevocationCodeSigningValidator`
+  revNil : Bool := false  -- ... the entries of that vector being NIL pointers instead of OK results (a certificate
+                          -- without a result has an unknown status)
+  revNilServer : Bool := false -- ... every (non-nil) result carrying a NIL server result (server results are logged only)
   keys : List String := []   -- signingKeys cases: the names of the key list, in order (repetitions possible)
   deflt : Option String := none -- ... its default key name
   names : List String := []  -- ... the argument list of `Remove`
@@ -182,12 +187,14 @@ def verifyWithStmt (g : Guards) (st : Stmt) (manager : Bool) (sig : Sig) : Obs :
       if manager then failWith true
       else if g.pluginManagerNil then failWith true else panic
 
-/-- the revocation validator's answer does not have one result per certificate -/
-def revFails (i : Input) : Bool := i.rev && i.revSurplus != 0
+/-- the revocation validator's answer does not have one OK result per certificate: another count, or the right
+count (the chain is not empty) of nil entries -/
+def revFails (i : Input) : Bool := i.rev && (i.revSurplus != 0 || i.revNil)
 
 /-- the revocation step, last of the enforcing path: only a verification that passed everything else gets there;
 `revocationFinalResult` fails closed (status unknown, enforced) on a result count other than the chain's length -
-too few AND too many - and reads no result at all in that case -/
+too few AND too many - and reads no result at all in that case; it fails closed as well on a NIL entry (status
+unknown for that certificate) and skips nil server results: neither is dereferenced -/
 def revStep (i : Input) (o : Obs) : Obs :=
   if revFails i && !o.panicked && !o.err && o.outcome == some { hasError := false, hasContent := true } then failWith true else o
 
